@@ -15,7 +15,7 @@ NOT_READY_REASON = "check under construction in this session (claimed once its m
 CHECKS = {
  "C01": ("exploration",
    "runtime monitoring: catch_unwind + child-process rlimit probes (8 MiB stack, CPU-time bound) + error-rendering totality; sanitizers (ASan, Miri) in the thorough tier",
-   "Process-level totality oracle over every entry point x option vector x target family: exhaustive for all token strings over a 28-token indicator alphabet (len <= 3 quick / <= 4 thorough), mutated corpus incl. invalid UTF-8, pathological deep/wide inputs at the budget limits probed in child processes with an 8 MiB stack; every returned error is rendered through every renderer. 'Terminates' is restated as a CPU-time bound. Held on the executions listed, nothing more.",
+   "Process-level totality oracle over every entry point x option vector x target family: exhaustive for all token strings over a 28-token indicator alphabet (len <= 3 on the full grid of 12 entry points x 7 option vectors x 11 targets; the next length through hash-chosen combinations of 47 targets and bit-encoded option vectors; thorough one token longer), all strings over a 22-token robotics expression alphabet, structure-aware variants of the repository's own test documents (truncate/delete at every byte, delete/duplicate/swap every line), mutated corpus incl. invalid UTF-8, pathological deep/wide inputs at the budget limits probed in child processes with an 8 MiB stack in release and dev profile (minimal stack per shape x target bisected and recorded); every returned error is rendered 11 ways incl. the miette adapter under three handlers; validating entry points included. 'Terminates' is restated as a CPU-time bound. Held on the executions listed, nothing more.",
    "Termination is a bounded-progress restatement; sanitizers cover dependency unsafe code reached by the workload only (the crate forbids unsafe)."),
  "C02": ("exploration",
    "runtime monitoring: metamorphic differential oracle (aliased vs alias-free expanded document) + hook-trace observation of replay",
@@ -23,75 +23,75 @@ CHECKS = {
    "Trusted: the raw saphyr-parser event stream as the meaning of a document (name-based expansion of the generator tree is cross-checked against the id-based expansion of the parser's tree; disagreement = inconclusive). Budget/alias limits off."),
  "C03": ("exploration",
    "runtime monitoring: metamorphic oracle (merge document vs reference-merged explicit document) under all three duplicate-key policies",
-   "Generated mappings with merge keys are compared with the fully written-out mapping computed by an independent reference rule on the raw parser tree, into ordered (delivery order visible), overwriting-map and struct targets, under all three policies; must-fail merge values and quoted/tagged '<<' keys included; exhaustive small shapes + random.",
+   "Generated mappings with merge keys are compared with the fully written-out mapping computed by an independent reference rule on the raw parser tree, into ordered (delivery order visible), overwriting-map and struct targets, under all three policies; must-fail merge values and quoted/tagged '<<' keys included; exhaustive over merge-entry sequences (<= 3 merge entries over a 29-shape alphabet, 4 in thorough), typed positions of derived structs/enums, merge chains to depth 3/4, value shapes carried by merged entries, scalar key spellings, under four option vectors + random.",
    "Trusted: raw parser tree; reference merge rule implements the property text."),
  "C04": ("exploration",
    "runtime monitoring: differential oracle against generator-side de-duplicated documents + located-error check against raw parser marks",
-   "Mappings with repeated scalar/sequence/mapping/aliased keys and large or structured values after the repeat are checked per policy: Error -> DuplicateMappingKey at the second occurrence's position, FirstWins -> document with later entries deleted, LastWins -> every entry delivered in order; no-repeat mappings identical under all policies; exhaustive small shapes + random.",
+   "Mappings with repeated scalar/sequence/mapping/aliased keys and large or structured values after the repeat are checked per policy: Error -> DuplicateMappingKey at the second occurrence's position, FirstWins -> document with later entries deleted, LastWins -> every entry delivered in order; no-repeat mappings identical under all policies; ignoring targets (IgnoredAny, undeclared fields) must still see repeats; repeated keys of kinds scalar/sequence/mapping/null/empty/{null: x} in every position of patterns of length 2-3(4), later occurrences spelled in place or as aliases, seven typed positions, four option vectors; exhaustive small shapes + random.",
    "Trusted: raw parser marks for positions; unique tokens in later siblings make cursor shifts visible."),
  "C05": ("exploration",
    "runtime monitoring: reference interpreter over the raw parser event tree vs the real deserializer driven by a run-time DeserializeSeed (dynamic schema)",
-   "(type description, document) pairs from a schema grammar and a near-miss-biased document generator; the library result must equal the reference interpretation (values position by position, MustErr classes must fail); leaves are taken from the library on the isolated scalar so only position faithfulness is judged; all three enum notations, block and flow.",
+   "(type description, document) pairs from a schema grammar and a near-miss-biased document generator; the library result must equal the reference interpretation (values position by position, MustErr classes must fail); leaves are taken from the library on the isolated scalar so only position faithfulness is judged; all three enum notations (and their agreement: '!V P' vs '{V: P}'), block and flow; exhaustive: every type of the small grammar <= 4 nodes and of the full shape grammar <= 3 (4 thorough) nodes x every matching document x every single near-miss edit, every placement of an alias and every merge-key form on <= 3-node types, duplicate fields under all three policies, four option vectors (incl. no_schema + strict_booleans); 11 real derived types incl. Rc/Arc/Spanned/anchor wrappers/flatten.",
    "The dynamic SchemaSeed stands for derive(Deserialize) output; a handful of real derived types are exercised too. Classes the docs do not pin down are counted as unspecified."),
  "C06": ("exploration",
    "runtime monitoring: independent reference models (big-integer reader, grammar recognisers, RFC 4648 decoder) over an exhaustive finite product",
-   "Token corpus (every integer-width boundary +-1 in every radix, separators, signs, bool/null/float/char forms) x styles x tags x targets x option combinations compared with independent reference functions: accepted values must be the mathematically exact natural value and fit the width; documented grammar must be accepted; tokens without a natural reading rejected; base64 exhaustive over short strings.",
+   "Token corpus (every integer-width boundary +-1 in every radix, separators at every digit position, signs, bool/null/float/char forms, every string of length <= 6 (7 thorough) over a numeric alphabet, extreme floats incl. exact halfway points checked by big-integer rounding, every Unicode scalar value as a character) x styles x tags x 23 targets x 16 option combinations x arrival routes (direct, alias, merged value, map key) compared with independent reference functions: accepted values must be the mathematically exact natural value and fit the width; documented grammar must be accepted; tokens without a natural reading rejected; base64 exhaustive over short strings.",
    "Over-acceptance outside the documented grammar that still returns the natural value is counted as unspecified, not alarmed."),
  "C07": ("exploration",
    "runtime monitoring: independent event counter over raw parser events + threshold probing (limit = usage / usage-1) + hook-trace agreement guard",
-   "For generated documents and streams the usage report must equal an independent fold over the raw parser events plus reference expansion; each limit set to measured usage must accept and to usage-1 must fail with the matching breach; per-document independence for the streaming iterator under permutations; check_yaml_budget agrees on alias-free inputs. Verdicts only when the model agrees with the hook trace.",
+   "For generated documents and streams the usage report must equal an independent fold over the raw parser events plus reference expansion; each limit set to measured usage must accept and to usage-1 must fail with the matching breach; per-document independence for the streaming iterator under permutations (all streams of <= 2/3 documents over a 27-document pool incl. failing ones, then random); nothing beyond a limit may have been handed on when it is exceeded (hook monitor); exhaustive trees <= 5 (6) nodes with <= 2 anchors/aliases and merges, plus every sequence-only tree of 2-6 (7) nodes with <= 3 anchors and 1-3 aliases (nested/open/redefined anchors) through str, reader and from_multiple; check_yaml_budget agrees on alias-free inputs. Verdicts only when the model agrees with the hook trace.",
    "Trusted: raw parser events; a model/trace disagreement makes the case inconclusive."),
  "C08": ("exploration",
    "runtime monitoring: visitor-callback counter, counting allocator (peak live bytes), per-step shadow counters on the hook trace, over parameterised attack families",
-   "Attack families (fan-out^levels bombs, alias chains, aliases in anchored containers, nested anchors, wide merges) over a parameter grid under default and tightened limits: nodes delivered and events pumped within limits on every run, replay counters within limits at every trace step, acceptance exactly at measured usage, peak heap <= 2 MiB + 256*input + 1024*counted events and a scaling law per family.",
+   "Attack families (fan-out^levels bombs, alias chains, aliases in anchored containers, nested anchors, inner anchors aliased while the outer is open, nested reuse, redefinition, per-document replay reset in streams, wide merges) over a parameter grid (189 / 464 members) under default and tightened limits and with budget None, plus an exhaustive nested family (n <= 6/7 nodes, <= 3 anchors/aliases) probed at measured and measured-1 for every alias limit, and 0.5 M / 3 M streams through the iterator: nodes delivered and events pumped within limits on every run, replay counters within limits at every trace step, acceptance exactly at measured usage, peak heap <= 2 MiB + 256*input + 1024*counted events and a scaling law per family.",
    "Memory bound constants fixed in DESIGN before measuring; large members run in child processes (OOM kill = inconclusive)."),
  "C09": ("exploration",
    "runtime monitoring: differential oracle across entry points under enumerated chunk schedules (all 2^(n-1) partitions for short inputs) + pointer-range borrow check",
-   "Same text through from_str / from_slice / closure helpers / from_reader under chunk schedules (1 byte, fixed k, random, adversarial splits, all partitions of short inputs): equal values or same error kind and line/column; BOM variants agree; borrowed-string targets succeed exactly when the scalar is verbatim in the input and are sub-slices of it; readers never lend.",
+   "Same text through from_str / from_slice / closure helpers / from_reader / the read iterator under chunk schedules (1 byte, fixed k, random, adversarial splits, all 2^(n-1) partitions of inputs <= 16 (20) bytes and of all token strings <= 3 (4) tokens), UTF-16 LE/BE inputs cut inside every code unit, documents rejected only at finalisation with budget-report comparison: equal values or same error kind and line/column; BOM variants agree; borrowed-string targets succeed exactly when the scalar is verbatim in the input and are sub-slices of it; readers never lend.",
    "Invalid UTF-8 is unspecified (entry points legitimately differ)."),
  "C10": ("fault_enumeration",
    "runtime monitoring with fault injection: instrumented Read/Write failing at every position k; byte-pull accounting against the cap",
-   "Every fault position of every short document (hard error on k-th read / after byte k / EOF inside a code point) through single-document and iterator entry points: fired fault => error, never a value from the truncated prefix (prefix-complete documents generated deliberately); bytes pulled <= cap + fixed allowance; writer failing at every write => that I/O error and a prefix of the fault-free output.",
+   "Every fault position of every one of 5 000 (24 000) short documents (hard error on k-th read / after byte k / EOF inside a code point; sticky and fail-once; BOM and UTF-16 inputs incl. positions inside the mark) through single-document and iterator entry points incl. scalar roots with typed targets: fired fault => error, never a value from the truncated prefix (prefix-complete documents generated deliberately); bytes pulled <= cap + fixed allowance; every cap value 0..=len+1; writer failing at every call k and byte n (sticky and fail-once) over plain, shared-anchor and wrapper records x all 768 serializer option vectors => that I/O error and the accepted bytes a prefix of the fault-free output.",
    "Readers never return 0 before EOF and never Interrupted; allowance constant fixed in DESIGN."),
  "C11": ("exploration",
    "runtime monitoring: differential oracle (stream vs each document alone) over all document-kind sequences up to a length bound",
-   "All sequences (length <= 4 quick / <= 5 thorough) over 12+ document kinds x separators through batch, iterator and single-document entry points: items equal the documents deserialized alone; empty/null skipped; anchors do not cross documents; iterator continues after type errors, ends after syntax errors, terminates within documents + 2 calls.",
+   "All sequences (length <= 5 quick / <= 6 thorough over 10 core kinds; shorter over the full kind list incl. first-token failures and quoted null-likes) x separator layouts x 7 targets x 6 option vectors through batch, iterator, single-document and validating entry points; two iterators interleaved on one thread: items equal the documents deserialized alone; empty/null skipped; anchors do not cross documents; iterator continues after type errors, ends after syntax errors, terminates within documents + 2 calls.",
    "Document cuts confirmed by the raw parser's DocumentStart count."),
  "C12": ("exploration",
    "runtime monitoring: round-trip oracle over exhaustive adversarial strings, all f32 bit patterns, integer boundaries, x positions x option vectors",
-   "from_str(to_string_with_options(v)) == v for strings over a 32-symbol adversarial alphabet (exhaustive to length 3 quick / 4 thorough), look-alikes, long random strings, in 8+ positions and many option vectors; untyped read-back must be a string (never null/number/bool/merge/document marker); floats bit-exact and in YAML float grammar (all 2^32 f32 patterns in thorough); integer boundaries; chars; byte arrays.",
+   "from_str(to_string_with_options(v)) == v for strings over a 32-symbol adversarial alphabet (exhaustive to length 3 in 38 layout positions x 13 option vectors, length 4 over 16 (32) symbols, length <= 2 under all 960 option vectors), every control / BOM / separator code point, length thresholds around the wrap column and the 1024-character key limit, look-alikes, long random strings; untyped read-back must be a string (never null/number/bool/merge/document marker); floats bit-exact and in YAML float grammar (every f64/f32 exponent x extreme and random mantissas, also as mapping keys; all 2^32 f32 patterns in thorough); integer boundaries; chars; byte arrays.",
    "Only valid serializer option sets."),
  "C13": ("exploration",
    "runtime monitoring: round-trip oracle over an exhaustive (type, value) shape grammar x serializer option combinations, well-formedness via the raw parser",
-   "All small (Ty, TVal) trees covering every data-model shape in every parent position x option combinations: serialization succeeds, the raw parser sees exactly one document, the dynamic schema reads back an equal value.",
+   "All (Ty, TVal) trees of <= 4 (5) nodes covering every data-model shape in every parent position x the full 384-vector option grid (plus indent/wrap sweeps), constructor chains to length 4 (5), 15 composite key shapes, byte buffers in every position, shared RcAnchor values in 6 holders: serialization succeeds, the raw parser sees exactly one document, the dynamic schema reads back an equal value.",
    "Shapes not representable in YAML (Option<Option<T>>, Option<()>, colliding keys) excluded from the grammar."),
  "C14": ("exploration",
    "runtime monitoring: graph-isomorphism oracle on pointer-equality classes before/after the round trip + raw-event check that shared nodes are defined once",
-   "Random and exhaustive-small object graphs over Rc/Arc anchors, weak anchors, recursive wrappers: canonical labelling by DFS; value tree, ptr_eq partition and weak-target map must be equal after the round trip; each shared node emitted once; mirror types with plain fields get equal independent copies.",
+   "Random and exhaustive-small object graphs (n <= 4 nodes, up to two weak edges, all four wrapper families), chains of nested shared nodes (depth 3/4) with every subset of re-references while definitions are open or closed, 13 serializer option vectors, read back through from_str / reader / slice / from_multiple (document written twice => no sharing across documents) over Rc/Arc anchors, weak anchors, recursive wrappers: canonical labelling by DFS; value tree, ptr_eq partition and weak-target map must be equal after the round trip; each shared node emitted once; mirror types with plain fields get equal independent copies.",
    "Weak edge to a later-serialised live target is unspecified (Err or correct topology accepted)."),
  "C15": ("exploration",
    "runtime monitoring: history checker - every call of every history compared with the same call on a fresh thread; nested calls compared with constant-result substitution",
-   "All histories of length <= 3 (quick) / <= 4 (thorough) over a 19-call core alphabet plus all pairs over 83 calls and random histories to length 20, each on a fresh thread; nested parses inside Deserialize impls at depth <= 3; repeated in child processes for hash-seed independence.",
+   "All histories of length <= 4 (quick) / <= 5 (thorough) over a 22-call core alphabet plus all pairs (and triples a,m,b) over the full 129-call table and random histories to length 24, each compared with the call on a fresh thread; nested parses inside Deserialize impls (15 outer kinds x 19 entry points x exit kind Ok/Err/panic x same or fresh thread) at depth <= 2 (3); every schedule of <= 5 (6) next() calls over three interleaved iterators; strong counts and payload drops observed; repeated in child processes for hash-seed independence.",
    "Verdicts at the API boundary only (no 'state is empty' probes)."),
  "C16": ("exploration",
    "runtime monitoring: independent line/column/byte recomputation + span-vs-token oracle + error-location vs Spanned-location differential",
-   "Every location from fully span-wrapped parses and from provoked errors: inside the input; line/column/char/byte offsets mutually consistent by independent recomputation; single-line scalar spans equal the source token; error location equals the Spanned location of the same node; alias/merge use-site and definition-site as stated.",
+   "Every location from fully span-wrapped parses and from provoked errors (all token strings <= 4 (5) tokens, every placement of <= 2 anchors/aliases and merges on trees <= 6 (7) nodes, 2-4 document streams through from_multiple and the read iterator, an 83-cell enum-payload grid, a 154-cell grid of serde-raised errors, complex keys, closing-quote stress leaves, 0.8 M / 5 M random documents): inside the input; line/column/char/byte offsets mutually consistent by independent recomputation; single-line scalar spans equal the source token; error location equals the Spanned location of the same node; alias/merge use-site and definition-site as stated.",
    "CR-only line convention and span ends of block/multi-line scalars unspecified."),
  "C17": ("exploration",
    "runtime monitoring: output invariants on rendered reports (control-character scan, window/crop bounds, caret-over-column) across formatters, radii, entry points and the miette adapter",
-   "Every failing (input, type) pair of the short-token space plus documents reflecting control characters / long lines / CRLF / wide chars, rendered by every formatter, snippet mode, crop radius, string and reader entry points and miette: no panic, no C0 (except LF/TAB)/DEL/C1, window and crop bounds, right line, caret under the reported column.",
+   "Every failing (input, type) pair of the token space (<= 4 tokens, 5 in thorough) plus the full reflection grid, validation reports of both validator crates, byte-by-byte reader window alignment x 12 chunk sizes, a column sweep over mixed-width characters x radii, 1-5 document streams, documents reflecting control characters / long lines / CRLF / wide chars, rendered by every formatter, snippet mode, crop radius, string and reader entry points and miette: no panic, no C0 (except LF/TAB)/DEL/C1, window and crop bounds, right line (the text shown under the location's line number must be a crop of that input line), caret under the reported column.",
    "Layout details not pinned down by the renderer's documentation are unspecified."),
  "C18": ("exploration",
    "runtime monitoring: differential oracle (validating vs plain entry points) + location oracle against a Spanned mirror type",
-   "Fixed family of garde/validator types with generated documents (direct, alias, merge supplied values; renames; nested; sequences) and a chosen set of violated constraints: no violation => equal to plain entry points; violations => exactly the chosen paths, each located at the use/definition site the Spanned mirror gives; every failing document of a stream reported.",
+   "Fixed family of garde/validator types with generated documents (9 delivery templates: direct, scalar alias, whole-struct alias, merge, alias inside a merge source, ...; every subset of violated leaves; every serde rename_all convention x every subset of 6 boundary-case fields; nested; sequences; maps with repeated keys under LastWins/FirstWins; 1-5 (7) document streams with null-like documents) under six option variants and three formatter settings: no violation => equal to plain entry points; violations => exactly the chosen paths, each located at the use/definition site the Spanned mirror gives; every failing document of a stream reported.",
    "Only what the public error surface exposes is compared."),
  "C19": ("exploration",
    "runtime monitoring: reference evaluator (bit-exact), on/off differential on plain literals incl. double-rounding witnesses, cross-build dump comparison, totality probes",
-   "Grammar-generated expressions vs a reference recursive-descent evaluator (bit-exact f64/f32), must-fail classes; every literal identical with the option on and off (f32/f64, near-midpoint witnesses); dumps with the feature compiled out identical; random/mutated strings, deep nests and huge numbers under panic/CPU/stack observers.",
+   "Grammar-generated expressions and all token strings over four alphabets (<= 6-7 tokens quick, 7-8 thorough) vs a reference recursive-descent evaluator (bit-exact f64/f32), must-fail classes; exact IEEE identities and regrouping around any expression, commutativity, unit call vs tag, f32 = narrowed f64 result, number lexing with separators at every position; every literal identical with the option on and off (f32/f64, near-midpoint witnesses); dumps with the feature compiled out identical; random/mutated strings, deep nests and huge numbers under panic/CPU/stack observers.",
    "Rounding choices the docs do not pin down accept both results."),
  "C20": ("exploration",
    "runtime monitoring: metamorphic oracle (decorated vs bare value through an untyped tree) over wrappers x options x hostile comment/string content",
-   "Values decorated at random positions with FlowSeq/FlowMap/LitStr/FoldStr/Commented/SpaceAfter and every option vector must read back to the same data as the bare value (untyped and typed), exactly one document; hostile comment text and literal/folded contents.",
+   "Values decorated with FlowSeq/FlowMap/LitStr/FoldStr/Commented/SpaceAfter (wrapper stacks of depth 1-3 at every position of every tree <= 3 (4) nodes incl. keys, composite keys and variant payloads; all-positions plans) under the 384-vector option grid plus corner vectors must read back to the same data as the bare value (untyped and typed), exactly one document; hostile comment text and literal/folded contents.",
    "Strings under an explicit fold wrapper compared modulo one trailing line break."),
 }
 
@@ -109,7 +109,7 @@ def main():
                 "evidence_file": f"/verif/evidence/{pid}.json",
                 "replay_cmd_template": f"./check {pid} --replay {{path}}",
                 "engine": "harness",
-                "level_claimed": {"category": cat, "text": text + " Held on the executions listed in the evidence, nothing more.", "design_ref": f"DESIGN.md §5 {pid}"},
+                "level_claimed": {"category": cat, "text": text + " The exact enumerated spaces and counts of the last run are in the evidence file (coverage.exhaustive_scope, coverage.rule). Held on the executions listed in the evidence, nothing more.", "design_ref": f"DESIGN.md §5 {pid}"},
                 "level_note": note,
                 "technique": tech,
             })
